@@ -49,8 +49,8 @@ const c05CrossChainPolicyOffIsViolation = true
 
 func init() {
 	kit.Register(&kit.Spec{
-		ID: "C05",
-		Rule: "A: generated TransferAsset transactions whose references name 1..4 addresses drawn from {standard, m-of-n multisig n<=7, multisig code under standard/deposit prefix, deposit-standard, Schnorr aggregate of 1..4 keys, cross-chain m-of-n}, optionally one more address through a Script attribute; witnesses signed with real P-256 keys over the unsigned bytes, then exactly one adversarial variant (see counter names variant:*) applied to one address/program; each case is evaluated by RunPrograms (positional) and by the context check's signature step (sorted). B: the same variants on transactions that spend real UTXOs of a live regnet node through the mempool and blocks. distinct = distinct (variant, address kinds, unsigned bytes); non-trivial = a witness with at least one genuine signature reached RunPrograms (no length/count shortcut)",
+		ID:      "C05",
+		Rule:    "A: generated TransferAsset transactions whose references name 1..4 addresses drawn from {standard, m-of-n multisig n<=7, multisig code under standard/deposit prefix, deposit-standard, Schnorr aggregate of 1..4 keys, cross-chain m-of-n}, optionally one more address through a Script attribute; witnesses signed with real P-256 keys over the unsigned bytes, then exactly one adversarial variant (see counter names variant:*) applied to one address/program; each case is evaluated by RunPrograms (positional) and by the context check's signature step (sorted). B: the same variants on transactions that spend real UTXOs of a live regnet node through the mempool and blocks. distinct = distinct (variant, address kinds, unsigned bytes); non-trivial = a witness with at least one genuine signature reached RunPrograms (no length/count shortcut)",
 		Shards:  func(tier string) int { return 8 },
 		Run:     runC05,
 		Require: []string{"A_positional_calls", "A_sorted_calls", "A_impl_accept", "A_impl_reject", "A_honest_accepted", "A_model_accept", "A_model_reject", "A_reject_agree", "kind:standard", "kind:multisig", "kind:schnorr", "kind:crosschain", "kind:deposit-standard", "variant:data-flip", "variant:same-key-multi-slot", "variant:same-sig-repeated", "variant:dup-key-script", "variant:prefix-swap", "variant:nonmember-sig", "B_submissions", "B_honest_accepted", "B_rejected_at_signature_step", "B_mined_spends", "model_ecdsa_cross_checks"},
